@@ -64,6 +64,11 @@ class Closure(object):
     def __init__(self, node, frame):
         self.node, self.frame = node, frame
 
+    def __call__(self, *args, **kw):
+        # a closure handed to native code (list.sort(key=...), filter, ...) is run by the interpreter
+        from . import frame
+        return frame.run_closure(self, list(args), kw)
+
 
 class SuperProxy(object):
     def __init__(self, after, obj):
@@ -242,6 +247,8 @@ def getattr_(o, name):
         if name == 'get_code_size':
             return lambda: sc.spec.width
         return getattr_(getattr_(materialize(sc), 'value'), name)
+    if isinstance(o, SAbs) and name in o.attrs:
+        return o.attrs[name]
     if isinstance(o, (SSeq, SStr, SInt, SBool, SFlags, SDateTime, STimeDelta, SAbs)):
         kind = {SSeq: 'seq', SStr: 'str', SInt: 'int', SBool: 'int', SFlags: 'flags', SDateTime: 'datetime',
                 STimeDelta: 'timedelta', SAbs: 'abs'}[type(o)]
@@ -275,7 +282,7 @@ def enum_value_attr(ev, name):
     if callable(first):
         return MethodRef('enumvalue', name, ev)
     if all(isinstance(v, str) for v in vals):
-        return SAbs('enum_str:%s:%s' % (ev.cls.__name__, name), ev.idx, str)
+        return SAbs(('enum_str', ev.cls, name), ev.idx, str)
     non_none = [v for v in vals if v is not None]
     if non_none and all(isinstance(v, enum.Enum) and type(v) is type(non_none[0]) for v in non_none):
         cls2 = type(non_none[0])
@@ -687,6 +694,13 @@ def call(f, args, kw):
     if deep_concrete(args) and deep_concrete(kw):
         return native(f, args, kw)
     bself = getattr(f, '__self__', None)
+    if isinstance(bself, dict) and getattr(f, '__name__', '') == 'get' and args and V.is_symbolic(args[0]) \
+            and not V.is_symbolic(list(bself.keys())):
+        for key in list(bself.keys()):
+            c = ops.eq_values(args[0], key)
+            if c is True or (c is not False and ops.truth(c)):
+                return bself[key]
+        return args[1] if len(args) > 1 else None
     if isinstance(bself, (bytes, bytearray)) and ('seq', getattr(f, '__name__', '')) in METHOD_MODELS:
         return METHOD_MODELS[('seq', f.__name__)](ops.as_seq(bself), *args, **kw)
     if isinstance(bself, str) and ('str', getattr(f, '__name__', '')) in METHOD_MODELS:
